@@ -44,6 +44,9 @@ pub struct ModelStats {
     pub slots_freed: u64,
     pub out_of_line_values: u64,
     pub failed_queries: u64,
+    /// primitive mutations applied so far / applied by the last failing query before its error
+    pub mutations: u64,
+    pub last_failed_mutations: u64,
     freed_kind: BTreeMap<i64, (bool, bool)>, // slot -> (was node, had values)
 }
 
@@ -367,12 +370,14 @@ impl RefDb {
     }
 
     fn new_node(&mut self, id: Option<i64>, errors: &mut Vec<String>) -> i64 {
+        self.stats.mutations += 1;
         let id = self.adopt_new(id, true, errors);
         self.nodes.insert(id, RNode::default());
         id
     }
 
     fn new_edge(&mut self, id: Option<i64>, from: i64, to: i64, errors: &mut Vec<String>) -> i64 {
+        self.stats.mutations += 1;
         let id = self.adopt_new(id, false, errors);
         self.edges.insert(id, (from, to));
         self.nodes.get_mut(&from).unwrap().out.insert(0, id);
@@ -409,6 +414,9 @@ impl RefDb {
     }
 
     fn remove_elem(&mut self, id: i64) -> bool {
+        if self.exists(id) {
+            self.stats.mutations += 1;
+        }
         if id < 0 {
             if self.edges.contains_key(&id) {
                 // counted as explicit removal, not cascade
@@ -444,6 +452,7 @@ impl RefDb {
     }
 
     fn upsert_value(&mut self, id: i64, k: &Val, v: &Val) {
+        self.stats.mutations += 1;
         if v.payload_len() > 15 || k.payload_len() > 15 {
             self.stats.out_of_line_values += 1;
         }
@@ -464,6 +473,7 @@ impl RefDb {
     }
 
     fn set_alias(&mut self, id: i64, alias: &str) {
+        self.stats.mutations += 1;
         if let Some(holder) = self.aliases.get(alias).cloned() {
             if holder != id {
                 self.stats.alias_steals += 1;
@@ -494,7 +504,9 @@ impl RefDb {
         let pred = match self.apply_inner(q, &mut adopt) {
             Ok(p) => p,
             Err(reason) => {
+                let done = self.stats.mutations.saturating_sub(snapshot.stats.mutations);
                 *self = snapshot;
+                self.stats.last_failed_mutations = done;
                 self.stats.failed_queries += 1;
                 Pred::Err(reason)
             }
@@ -769,6 +781,7 @@ impl RefDb {
                     return Err("index exists".into());
                 }
                 self.indexes.insert(k.clone());
+                self.stats.mutations += 1;
                 let n = self
                     .values
                     .values()
@@ -825,6 +838,7 @@ impl RefDb {
                 let mut n = 0;
                 for a in list {
                     if self.aliases.remove(a).is_some() {
+                        self.stats.mutations += 1;
                         n += 1;
                     }
                 }
@@ -842,6 +856,7 @@ impl RefDb {
                         let before = v.len();
                         v.retain(|(k, _)| !keys.contains(k));
                         n += (before - v.len()) as u64;
+                        self.stats.mutations += (before - v.len()) as u64;
                     }
                 }
                 Ok(Pred::Ok(Exp {
